@@ -292,7 +292,7 @@ package alephium
 // It must terminate whatever the node answers (decreases), and the cursor only moves forward
 // by exactly what was fetched (each event fetched once).
 //@ func (w *Watcher) fetchEvents(ctx context.Context, logger *zap.Logger, client *Client, errC chan<- error, eventsC chan<- []*UnconfirmedEvent)
-//@   props C09
+//@   props C09 C08
 //@   requires w != nil && w.client != nil && client != nil && w.chainIndex != nil
 //@   modifies *
 //@   replay alephium_fetch.go.tmpl
@@ -303,6 +303,7 @@ package alephium
 //@     invariant [self] w != nil && w.client != nil && client != nil && w.chainIndex != nil && count != nil
 //@     invariant [cursor-only-forward] fromIndex >= atEntry(fromIndex) && fromIndex < *count
 //@     decreases *count - fromIndex
+//@     iter-ensures [cursor-follows-what-was-fetched] (events.NextStart > old(fromIndex) ==> fromIndex == events.NextStart) && (events.NextStart <= old(fromIndex) ==> fromIndex == old(fromIndex))
 
 // ---------------------------------------------------------------- re-observation path (C08)
 
